@@ -1530,7 +1530,10 @@ impl<'a> Parser<'a> {
                         Value::Constant(ConstantValue::Null(self.empty_token()))
                     }
                 };
-                let span = Span::new(start, self.end_index);
+                // When nothing could be consumed for this argument (e.g. the input ends, after
+                // ignored characters, right behind the opening parenthesis) the current token starts
+                // behind the end of the previous one.
+                let span = Span::new(start, std::cmp::max(start, self.end_index));
                 items.push(Argument {
                     span,
                     name,
